@@ -198,8 +198,14 @@ func genC11HTML(r *core.Rand) c11Host {
 			payload := r.Pick(c11CSS)
 			mt := r.Pick([]string{"text/css", "text/x-custom"})
 			enc := strings.NewReplacer("%", "%25", " ", "%20", "\"", "%22", "#", "%23", "<", "%3C", ">", "%3E", "{", "%7B", "}", "%7D", "\n", "%0A").Replace(payload)
-			sb.WriteString("<link rel=stylesheet href=\"data:" + mt + ",")
-			slots = append(slots, c11Slot{Kind: "datauri", Mediatype: mt, Params: "", Payload: payload, Offset: sb.Len()})
+			// media type parameters go to the minifier as its params
+			par := r.Pick([]string{"", "", "charset=utf-8", "foo=bar"})
+			uriType := mt
+			if par != "" {
+				uriType += ";" + par
+			}
+			sb.WriteString("<link rel=stylesheet href=\"data:" + uriType + ",")
+			slots = append(slots, c11Slot{Kind: "datauri", Mediatype: mt, Params: par, Payload: payload, Offset: sb.Len()})
 			sb.WriteString(enc + "\">")
 		}
 	}
@@ -261,8 +267,13 @@ func genC11CSS(r *core.Rand) c11Host {
 			// long payloads: the stub's answer is shorter, so the rewritten URI is used
 			"f(x) and 'more'" + strings.Repeat(" ", 40), "<svg xmlns=\"http://www.w3.org/2000/svg\"><g transform=\"rotate(45)\">" + strings.Repeat("<rect  width=\"1\"/>", 6) + "</g></svg>"})
 		q := r.Pick([]string{"", "\"", "'"})
-		fmt.Fprintf(&sb, ".c%d{background:url(%sdata:%s,", i, q, mt)
-		slots = append(slots, c11Slot{Kind: "cssdatauri", Mediatype: mt, Params: "", Payload: payload, Offset: sb.Len()})
+		par := r.Pick([]string{"", "", "charset=utf-8", "foo=bar"})
+		uriType := mt
+		if par != "" {
+			uriType += ";" + par
+		}
+		fmt.Fprintf(&sb, ".c%d{background:url(%sdata:%s,", i, q, uriType)
+		slots = append(slots, c11Slot{Kind: "cssdatauri", Mediatype: mt, Params: par, Payload: payload, Offset: sb.Len()})
 		sb.WriteString(enc.Replace(payload) + q + ")}\n")
 	}
 	return c11Host{Lang: "css", Doc: sb.String(), Slots: slots}
@@ -573,6 +584,73 @@ func c11OutputSlots(lang, out string) ([]string, string) {
 	return slots, ""
 }
 
+// c11Nested: two levels of embedding with the real minifiers in between.  An HTML document holds an inline SVG
+// (real html and svg minifiers) whose style element and style attributes go to a recording CSS stub; a style sheet
+// holds a data URI with an SVG whose style goes to a recording stub for a custom type.  The call log decides: media
+// type, params (a style *element* never inherits inline=1 from the way its host was embedded) and exact content.
+func c11Nested(run *core.Run) {
+	n := run.N(300, 6000)
+	core.ParallelFor(n, 0, func(i int) {
+		r := run.CaseRand("c11nested", i, n/2)
+		rec := &c11Recorder{hostile: 0}
+		m := minify.New()
+		m.Add("text/html", &mhtml.Minifier{})
+		m.Add("image/svg+xml", &msvg.Minifier{})
+		m.AddFunc("text/css", rec.stub("text/css", 0))
+		var want []c11Call
+		var sb strings.Builder
+		sb.WriteString("<!doctype html><title>t</title><p>x</p>")
+		for k := r.Range(1, 2); k > 0; k-- {
+			sb.WriteString("<svg" + r.Pick([]string{"", " width=\"10\"", " xmlns=\"http://www.w3.org/2000/svg\""}) + ">")
+			for j := r.Range(1, 3); j > 0; j-- {
+				if r.Bool() {
+					pl := r.Pick([]string{"a{fill:red}", "rect { stroke : blue }", ".c{opacity:.5}"})
+					sb.WriteString("<style>" + pl + "</style>")
+					want = append(want, c11Call{Mediatype: "text/css", Params: "", Input: pl})
+				} else {
+					pl := r.Pick([]string{"fill : red", "stroke:blue;opacity:1"})
+					sb.WriteString("<rect width=\"1\" style=\"" + pl + "\"/>")
+					want = append(want, c11Call{Mediatype: "text/css", Params: "inline=1", Input: pl})
+				}
+			}
+			sb.WriteString("</svg>")
+		}
+		if r.Bool() {
+			pl := r.Pick(c11Decl[:3])
+			sb.WriteString("<p style=\"" + pl + "\">y</p>")
+			want = append(want, c11Call{Mediatype: "text/css", Params: "inline=1", Input: pl})
+		}
+		doc := sb.String()
+		run.Eval()
+		_, err, pan := minifyBytes(m, "text/html", []byte(doc))
+		cfg := "c11 nested html>svg>css"
+		bad := ""
+		switch {
+		case pan != "":
+			bad = "panic: " + pan
+		case err != nil:
+			bad = "error: " + err.Error()
+		case len(rec.calls) != len(want):
+			bad = fmt.Sprintf("%d calls to the css minifier, expected %d", len(rec.calls), len(want))
+		default:
+			for k := range want {
+				c := rec.calls[k]
+				if c.Mediatype != want[k].Mediatype || c.Params != want[k].Params || c.Input != want[k].Input {
+					bad = fmt.Sprintf("call %d was (%s; params %q; %q), expected (%s; params %q; %q)", k, c.Mediatype, c.Params, core.Trunc(c.Input, 60), want[k].Mediatype, want[k].Params, want[k].Input)
+					break
+				}
+			}
+		}
+		if bad != "" {
+			run.Violation(core.Key(cfg, []byte(doc)), cfg+": "+bad+" | in="+core.Trunc(doc, 400), map[string]interface{}{"config": cfg, "input": doc})
+			return
+		}
+		run.Count("c11_nested_cases")
+		run.CountN("c11_calls_matched", int64(len(want)))
+		run.NonTrivial([]byte(cfg), []byte(doc))
+	})
+}
+
 func C11(run *core.Run) {
 	run.ReplayWitnesses(func(f core.Finding, w core.Witness) (bool, string) {
 		// recorded witnesses are stylesheets with data URIs: the URL must come back out of the output
@@ -586,6 +664,7 @@ func C11(run *core.Run) {
 		}
 		return false, ""
 	})
+	c11Nested(run)
 	n := run.N(6000, 200000)
 	core.ParallelFor(n, 0, func(i int) {
 		r := run.CaseRand("c11", i, n/2)
